@@ -51,7 +51,7 @@ PROPS = {
             "no code path stores Some(Value::Null) in an Option<Value> field with skip_serializing_if (the proved exception; none found in the source today)",
             "known finding: payloads nested deeper than 127 levels are written but unreadable (known_findings.json)",
         ],
-        "gen": ["EventSchema"],
+        "gen": ["EventSchema", "EffectOrder"],
     },
     "C04": {
         "level_text": "Lean 4 theorems over an executable model of the tail-scanning read paths (provider cursor status, context selection status): truth answers as functions of the thread's frames, the bounded tail scan, the doubling-window loop and validate-then-fall-back, with the loop's features as switches so the code before and after the repairs can both be run — for EVERY cache content, limit, first window and maximum the loops end within max - w0 + 1 windows (FALSE before the repair: witness with a thread longer than the largest window); with a cache holding what it should the fast path equals the truth answer for every thread and window schedule (FALSE before the repair: duplicated decisions, partial cursor answers); a suffix-only cache file gives a wrong answer now and would be harmless with a head check (proved); a rolled-back (prefix-only) file is undetectable even then (witness). The loop shapes, fall-back conditions and head check are REGENERATED from the current source on every run and the theorems are stated for the regenerated shape (genShape = current by decide). Tied by the property's own observation on every run: thread histories built through the store API (short; fat: sidecars beyond the first and the largest tail window; thorough: > 10^4 frames), per history an unfaulted round, an index-loss round and three fault rounds (delete / truncate at a byte / garbage / roll back to a saved earlier version on any cache file, half followed by a restart and further appends); nine read capabilities — replay, cut points, compaction status, cursor status, selection status, the context compiled for a run, branch and handoff cut, default-thread recovery — evaluated with caches as found vs continuity_streams/ removed under a 20 s cap; every difference shrunk to a 1-minimal fault set; cursor and selection status also compared with the Lean specification. Two defect groups found and repaired (non-terminating / duplicating / partial tail scans; default thread after index loss), two recorded as known findings (stale prefix and suffix-only cache files pass the validators).",
@@ -63,7 +63,7 @@ PROPS = {
             "hooks: ripd::verif_export::continuities::{append_selection_decided, append_compiled, append_cursor_updated}, session::compile_for_run",
         ],
         "assumptions": [
-            "known findings: a cache file rolled back to an earlier well-formed version, and a derived cache file lost and recreated by later appends, are trusted by the readers (known_findings.json: C04|*|*rollback:*, C04|*|delete:*+appends)",
+            "known findings: a cache file rolled back to an earlier well-formed version, and a derived cache file lost and recreated by later appends, are trusted by the readers (known_findings.json: C04|*|*prefix-only:*, C04|*|delete:*+appends)",
             "only default-thread recovery is claimed for continuities/index.json loss",
         ],
         "gen": ["TailLoops"],
